@@ -59,6 +59,7 @@ type c17World struct {
 	h      *Handler
 	health map[string]string
 	ticks  int
+	probes int
 	tried  []string
 	// queries to run from inside the next probe exchange
 	inProbe int
@@ -87,7 +88,15 @@ func (u *c17Ups) Exchange(ctx context.Context, req *dns.Msg) (resp *dns.Msg, nw 
 			u.w.inProbe--
 			u.w.query()
 		}
-		u.w.out.Emit(c17Event{Ev: "Probe", U: u.id, OK: h == "up", Beh: u.w.beh, Main: []string{}, Fall: []string{}, Active: []string{}, Tried: []string{}})
+		u.w.probes++
+		if h == "down" && u.w.probes%2 == 0 {
+			// a silent upstream: the probe BLOCKS until its time-out; the clock reading that counts for the
+			// back-off is the one taken when the probe has failed, not one taken before it was sent
+			u.w.ticks++
+			u.w.out.Emit(c17Event{Ev: "ProbeBlocking", U: u.id, OK: false, D: 1, Beh: u.w.beh, Main: []string{}, Fall: []string{}, Active: []string{}, Tried: []string{}})
+		} else {
+			u.w.out.Emit(c17Event{Ev: "Probe", U: u.id, OK: h == "up", Beh: u.w.beh, Main: []string{}, Fall: []string{}, Active: []string{}, Tried: []string{}})
+		}
 	} else {
 		u.w.tried = append(u.w.tried, u.id)
 	}
